@@ -21,6 +21,7 @@ class Check(EngineCheck):
                 # a build whose trace has `R v` and no X / CY / ER returned THE clean value of the concrete external state
                 "LLBuild.Refine.EngineImpl_sound_C06_clean_value", "LLBuild.Refine.EngineImpl_sound_C06_clean_value_unique",
                 "LLBuild.Refine.EngineImpl_sound_C06_ghost_flag",
+                "LLBuild.Refine.EngineImpl_sound_all", "LLBuild.Refine.EngineImpl_sound_fail",
                 E + "C01_value_gen_clamp", E + "DSL.PPof_SelfStable", E + "DSL.PPof_SigCovers_forces"]
     mix = [(0.4, {}), (0.2, {"threads": True}), (0.2, {"cancel": True}), (0.2, {"reprogram": True})]
     budget = (300, 3000)
